@@ -1546,7 +1546,9 @@ namespace bloch::runtime {
     void RuntimeEvaluator::requestGc() { m_gcRequested = true; }
 
     void RuntimeEvaluator::rethrowDestructorError() {
-        if (m_pendingDestructorError && !m_inDestructor) {
+        // not while any destructor body is running, however deep inside calls or constructors made
+        // from it: the error would only be caught by that destructor again
+        if (m_pendingDestructorError && m_destructorDepth == 0) {
             std::exception_ptr err = m_pendingDestructorError;
             m_pendingDestructorError = nullptr;
             std::rethrow_exception(err);
@@ -1729,6 +1731,9 @@ namespace bloch::runtime {
                 thisVal.objectValue = self;
                 thisVal.className = cur->name;
                 m_env.back()["this"] = {thisVal, false, true};
+                const size_t scopesInBody = m_env.size();
+                const size_t framesInBody = m_frameStack.size();
+                ++m_destructorDepth;
                 try {
                     for (auto& stmt : cur->destructorDecl->body->statements) {
                         exec(stmt.get());
@@ -1738,7 +1743,15 @@ namespace bloch::runtime {
                 } catch (const BlochError&) {
                     if (!m_pendingDestructorError)
                         m_pendingDestructorError = std::current_exception();
+                    // the error left the body from inside nested blocks or calls: close the scopes
+                    // and frames they had opened, so that the stack is as the body found it
+                    while (m_frameStack.size() > framesInBody) {
+                        m_frameStart = m_frameStack.back();
+                        m_frameStack.pop_back();
+                    }
+                    while (m_env.size() > scopesInBody) endScope();
                 }
+                --m_destructorDepth;
                 endFrame();
                 m_inDestructor = prevDtor;
                 m_inConstructor = prevCtor;
